@@ -43,6 +43,7 @@ def register(reg):
     ex = reg.classes[EX]
     ex.ghost['g_notified'] = Set(KJ)         # aliases a status notification was sent for (this call)
     ex.ghost['g_header_sent'] = Bool
+    ex.ghost['g_status'] = Dict(KBytes, Opt(KStr))     # status computed for a script hash during this call
     ex.methods['send_notification'] = 'ext:RPCSession.send_notification'
     reg.contract('ext:RPCSession.send_notification', params={'self': Obj(EX), 'method': KStr, 'args': KJ},
                  assumes_inv=False, maintains_inv=False, modifies=['self.g_notified', 'self.g_header_sent'],
@@ -57,7 +58,7 @@ def register(reg):
     sas.props.append('C07')
     reg.contract(
         EX + '._notify_inner', params={'touched': Set(KBytes), 'height_changed': Bool},
-        requires=['not self.g_header_sent', 'forall(lambda a=J: a not in self.g_notified)',
+        requires=['not self.g_header_sent', 'forall(lambda a=J: a not in self.g_notified)', 'forall(lambda x=Bytes: x not in self.g_status)',
                   # aliases are the script hash strings the client subscribed with (scripthash_to_hashX accepted them)
                   ('aliases-are-strings', 'forall(lambda x=Bytes: implies(x in self.hashX_subs, isinstance(lookup(self.hashX_subs, x), str)))')],
         raises={'ExcessiveSessionCostError': []}, assumes_inv=False, maintains_inv=False,
@@ -67,20 +68,38 @@ def register(reg):
             ('touched-subscribers-notified',
              'forall(lambda x=Bytes: implies(x in old(touched) and x in old(self.hashX_subs) and '
              'truthy_j(lookup(old(self.hashX_subs), x)), lookup(old(self.hashX_subs), x) in self.g_notified))'),
+            # the status of a script hash with mempool transactions depends on the confirmation state of OTHER transactions:
+            # on a height change every tracked, subscribed script hash that was not touched is re-computed, and the client
+            # is told whenever the new status differs from the one recorded before this call
+            ('status-change-of-an-untouched-script-hash-is-notified',
+             'forall(lambda x=Bytes: implies(height_changed and x in old(self.mempool_statuses) and not (x in old(touched)) and '
+             'x in old(self.hashX_subs) and truthy_j(lookup(old(self.hashX_subs), x)), '
+             'x in self.g_status and implies(lookup(self.g_status, x) != lookup(old(self.mempool_statuses), x), '
+             'lookup(old(self.hashX_subs), x) in self.g_notified)))'),
         ],
-        ghost={('after', 'touched = touched.intersection(self.hashX_subs)'): ['subs0 = copy(self.hashX_subs)']},
+        ghost={('after', 'touched = touched.intersection(self.hashX_subs)'): ['subs0 = copy(self.hashX_subs)', 'touched1 = touched'],
+               ('after', 'status = await self.subscription_address_status(hashX)'): ['self.g_status = store(self.g_status, hashX, status)']},
         loops={
             0: LoopSpec('for hashX in touched',
                         invariants=[('done', 'forall(lambda x=Bytes: implies(x in _done and truthy_j(lookup(subs0, x)), lookup(subs0, x) in changed))'),
                                     ('subs-of-rest', 'forall(lambda y=Bytes: implies(y in touched and not (y in _done), (y in self.hashX_subs) and '
                                                      'lookup(self.hashX_subs, y) == lookup(subs0, y)))'),
-                                    ('quiet', 'not (exists(lambda a=J: a in self.g_notified))')],
-                        modifies=['changed', 'self.hashX_subs', 'self.mempool_statuses']),
+                                    ('quiet', 'not (exists(lambda a=J: a in self.g_notified))'),
+                                    ('untouched-entries-keep-their-recorded-status',
+                                     'forall(lambda y=Bytes: implies(not (y in touched), (y in self.mempool_statuses) == (y in old(self.mempool_statuses)) and '
+                                     'implies(y in self.mempool_statuses, lookup(self.mempool_statuses, y) == lookup(old(self.mempool_statuses), y)) and '
+                                     '(y in self.hashX_subs) == (y in subs0) and lookup(self.hashX_subs, y) == lookup(subs0, y) and not (y in self.g_status)))')],
+                        modifies=['changed', 'self.hashX_subs', 'self.mempool_statuses', 'self.g_status']),
             1: LoopSpec('for hashX, old_status in mempool_statuses.items()',
                         invariants=[('kept', 'forall(lambda a=J: implies(a in pre_changed, a in changed))'),
-                                    ('quiet', 'not (exists(lambda a=J: a in self.g_notified))')],
+                                    ('quiet', 'not (exists(lambda a=J: a in self.g_notified))'),
+                                    ('rechecked', 'forall(lambda x=Bytes: implies(x in _done and not (x in touched1) and x in subs0 and truthy_j(lookup(subs0, x)), '
+                                                  'x in self.g_status and implies(lookup(self.g_status, x) != lookup(mempool_statuses, x), lookup(subs0, x) in changed)))'),
+                                    ('not-yet-rechecked-keep-their-subscription',
+                                     'forall(lambda y=Bytes: implies(not (y in touched1) and not (y in _done), (y in self.hashX_subs) == (y in subs0) and '
+                                     'lookup(self.hashX_subs, y) == lookup(subs0, y) and not (y in self.g_status)))')],
                         ghost_pre=['pre_changed = dom(changed)'],
-                        modifies=['changed', 'self.hashX_subs', 'self.mempool_statuses']),
+                        modifies=['changed', 'self.hashX_subs', 'self.mempool_statuses', 'self.g_status']),
             2: LoopSpec('for alias, status in changed.items()',
                         invariants=[('sent', 'forall(lambda a=J: implies(a in _done, a in self.g_notified))'),
                                     ('header', 'self.g_header_sent == hdr0')],
